@@ -152,7 +152,12 @@ def build_harness(name):
         return exe, None
     os.makedirs(d, exist_ok=True)
     for old in os.listdir(d):
-        try: os.remove(os.path.join(d, old))
+        # drop binaries of earlier trees; never touch a file another process is still compiling
+        if ".tmp" in old or old == hsh:
+            continue
+        try:
+            if time.time() - os.path.getmtime(os.path.join(d, old)) > 600:
+                os.remove(os.path.join(d, old))
         except OSError: pass
     tmp = exe + ".tmp%d" % os.getpid()
     r = run(["g++"] + CXXFLAGS + ["-I" + os.path.join(REPO, "include"), "-I" + os.path.join(VERIF, "harness"), src, "-o", tmp])
